@@ -127,13 +127,14 @@ MUTCAP = [False]     # set per operand: may the block's closure be FnMut?
 
 def shaped(params, body, ret, shape, site, fnitems, opidx=0):
     c = f"|{params}| {tk(body, site)}"
+    nsite = str(site).lstrip("t")      # (the twin's sites are spelled t<site>)
     if shape == "closure" or (ret is None and shape not in ("block", "block2")):
         return c
     if shape == "fnpath":
         fnitems.append(f"fn f_{site}({params}) -> {ret} {{ {body} }}")
         return f"f_{site}"
     if shape == "call":
-        return f"rt::sem::ret({c})"
+        return f"rt::sem::ret({nsite}, {c})"
     if shape in ("block", "block2"):
         # the block's value is a `move` closure that owns a move-only token (a block capture need not be Clone) -- except
         # inside a wrapper over an iterator, whose generated closure runs once per item and can only copy what it uses
@@ -161,19 +162,19 @@ def shaped(params, body, ret, shape, site, fnitems, opidx=0):
     if shape == "rettype":
         return f"|{params}| -> {ret} {{ {tk(body, site)} }}"
     if shape == "macro":
-        return f"rt::clos!({c})"
+        return f"rt::clos!(rt::sem::ret({nsite}, {c}))"
     if shape == "field":
-        return f"rt::sem::hold({c}).f"
+        return f"rt::sem::hold({nsite}, {c}).f"
     if shape == "method":
-        return f"rt::sem::hold({c}).get()"
+        return f"rt::sem::hold({nsite}, {c}).get()"
     if shape == "index":
-        return f"[{c}][0]"
+        return f"[rt::sem::ret({nsite}, {c})][0]"
     if shape == "ref":
         # a borrowed closure literal stays alive only while it is a constant (rvalue promotion): no captures here
         return f"&|{params}| {body}"
     if shape == "ifelse":
         fnitems.append(f"fn f_{site}({params}) -> {ret} {{ {body} }}")
-        return f"if rt::sem::yes() {{ f_{site} }} else {{ f_{site} }}"
+        return f"if rt::sem::yes({nsite}) {{ f_{site} }} else {{ f_{site} }}"
     raise ValueError(shape)
 
 
